@@ -26,7 +26,7 @@ UnknownIdHarmless == UnknownIdHarmlessOf(st)
 NoCrash == ~st.crashed      \* used with AsCoded = TRUE: TLC must reach the nil dereference
 \* VIEW of the exhaustive cfgs: `script`, the result of the last call, the probe counter and the configured
 \* initial id do not influence the future behaviour (only M and the current member do): merge such states
-StView == [st EXCEPT !.b = [M |-> st.b.M, r |-> (st.status = "rejected")], !.last = 0, !.nprobe = 0]
+StView == [st EXCEPT !.b = [M |-> st.b.M, r |-> (st.status = "rejected"), ce |-> st.b.cerr], !.last = 0, !.nprobe = 0]
 
 \* script generation: print parameters + environment operations of every complete path
 Full(s) == /\ s.nsel = s.b.maxSel /\ Len(s.to) = s.b.maxW /\ Len(s.fedTo) = s.b.maxR
@@ -40,11 +40,13 @@ AllProbes == {"counters", "asUnreliable", "negotiationParams"}
 MemberSets == { {"m1"}, {"m1", "m2"}, All3 }
 Fam(name, M, init, selIds, ms, mw, mr, mp, probes, rac) ==
     [name |-> name, M |-> M, init |-> init, selIds |-> selIds, maxSel |-> ms, maxW |-> mw, maxR |-> mr,
-     maxP |-> mp, probes |-> probes, maxRac |-> rac, hold |-> FALSE]
+     maxP |-> mp, probes |-> probes, maxRac |-> rac, hold |-> FALSE, cerr |-> {}]
+FamCE(name, M, init, selIds, ms, mw, mr, ce) == [Fam(name, M, init, selIds, ms, mw, mr, 0, {}, 0) EXCEPT !.cerr = ce]
 FamH(name, M, init, selIds, ms, mw, mr) == [Fam(name, M, init, selIds, ms, mw, mr, 0, {}, 0) EXCEPT !.hold = TRUE]
 
 \* exhaustive: all member sets x all initial ids, bounds from the cfg
-ExhFams == { [Fam("exh", M, i, Ids, MaxSel, MaxWrites, MaxReads, MaxProbe, AllProbes, MaxRac) EXCEPT !.hold = TRUE] : M \in MemberSets, i \in Ids }
+ExhFams == { [Fam("exh", M, i, Ids, MaxSel, MaxWrites, MaxReads, MaxProbe, AllProbes, MaxRac) EXCEPT !.hold = TRUE, !.cerr = ce] :
+                M \in MemberSets, i \in Ids, ce \in {{}, {"m2"}} }
 \* the defect demonstration (AsCoded = TRUE): small
 CodedFams == { Fam("coded", {"m1", "m2"}, "m1", Ids, 1, 1, 0, 1, {"negotiationParams"}, 0) }
 
@@ -61,7 +63,9 @@ GenQ ==
       Fam("lu", {"m1", "m2"}, "m1", {"m2"}, 2, 1, 1, 0, {}, 0),
       Fam("w3q", All3, "m3", {"m2"}, 1, 3, 0, 0, {}, 0),
       FamH("hold", {"m1", "m2"}, "m1", {"m1", "m2", "zz", ""}, 2, 1, 0),
-      FamH("holdr", {"m1", "m2"}, "m2", {"m1", "zz"}, 1, 1, 1) }
+      FamH("holdr", {"m1", "m2"}, "m2", {"m1", "zz"}, 1, 1, 1),
+      FamCE("cerr", All3, "m1", {"m2"}, 1, 1, 1, {"m2"}), FamCE("cerr", All3, "m3", {}, 0, 1, 0, {"m1", "m3"}),
+      FamCE("cerr", {"m1", "m2"}, "m1", {}, 0, 0, 0, {"m1", "m2"}) }
     \cup { Fam("init", All3, i, {"m1"}, 1, 1, 0, 1, AllProbes, 0) : i \in {"zz", ""} }
     \cup { Fam("init", {"m1", "m2"}, "m3", {"m1"}, 1, 1, 0, 1, AllProbes, 0) }
 \* additional families of the thorough tier
